@@ -311,6 +311,32 @@ def _p7(ctx):
         ok = x.dom(x.expand_sites(pushes), t)
         ctx.add('P7d', 'T-DOM', fw, ok, 'fut_wait reports "parked" only after the task was registered' if ok else
                 'fut_wait can return true (caller returns NotReady) without having registered the task', where=g.where(t), sub='true.bb%d' % g.nodes[t].bb)
+    # P7j: "not parked, try again" is only answered after the wake-up condition was actually evaluated: every origin
+    # of a `false` result lies behind a read of the awaited cell (a spin phase that runs zero times must not count
+    # as "the value is there")
+    g._fwd_calls = set()
+    _orig, _all = g._const_origins(g.root_inst, 0, set())
+    at_l = {a.nid for a in x.atoms.values() if a.op == 'load' and
+            any(s_[0] == 'param' and s_[1] == g.root_inst and s_[2] == 3 for arg in g.call_args(a.nid)[:1] for s_ in g.deep_walk(arg))}
+    falses = sorted({x.rep(n_) for (n_, v_) in _orig if str(v_) == '0' and any(m_ in g.live() for m_ in g.members(n_))})
+    # `it.any(|_| check(..))` answering true means the callback ran (and saw the condition): the true edge of a test of
+    # such a result counts like the reads inside the callback
+    any_true = set()
+    for n_ in x.ext_calls(r'Iterator::any$'):
+        cis = set(g.nodes[n_].call.get('closure_insts') or ())
+        inside = [l_ for l_ in at_l if any(g.nodes[m_].inst in cis or x.within_inst(m_, cis) for m_ in g.members(l_))]
+        if inside:
+            _z, nz_, _h = x.zero_tests(lambda e_: e_[0] == 'call' and x.rep(e_[1]) == n_)
+            any_true |= set(nz_)
+    at_l = set(at_l) | any_true
+    if not falses or (g.insts[g.root_inst].body['locals'][0]['ty'].get('k') != 'bool'):
+        ctx.add('P7j', 'T-DOM', fw, True, 'fut_wait\'s result is not a boolean with constant origins: nothing to decide here', sub='retry.delegated')
+    else:
+        for t in falses:
+            ok = bool(at_l) and x.dom(at_l, t)
+            ctx.add('P7j', 'T-DOM', fw, ok, 'fut_wait answers "retry" only after looking at the awaited cell' if ok else
+                    'fut_wait can answer "not parked, retry" without ever evaluating the wake-up condition (e.g. when the spin phases run zero times): poll then loops inside the call instead of returning NotReady',
+                    where=g.where(t), sub='retry.%s.bb%s' % (short_fn(g.nodes[t].fn).split('::')[-1], g.nodes[t].bb))
     # (park / spin are checked as functions of their own when they exist; their code is part of fut_wait's graph anyway)
     for nm in (r'^multiqueue::FutWait::fut_wait$', r'^multiqueue::FutWait::park$', r'^multiqueue::FutWait::spin$'):
         for f_ in ctx.F.find_fns(nm):
